@@ -174,7 +174,24 @@ def generation_restored_first(mir, cc_idx):
         paths = core.Executor(dl, stop_blocks=[head], max_depth=150, max_paths=1500).run(entry)
         n_read = 0
         bad = 0
+        saved, saved_bad = 0, []
         for p in paths:
+            # the generation saved for the retry (a fixnum cell built from a machine-state word and
+            # written to a register) must be the call's generation cc
+            cur_cc = None          # value of cc on this path so far (None = the field as found)
+            for e in p.events:
+                if e[0] == "store" and e[1].endswith(".%d" % cc_idx) and e[1].startswith("((*_1).0)"):
+                    cur_cc = e[2]
+                if e[0] == "call" and e[1].endswith("Fixnum::build_with_unchecked"):
+                    a = e[2][0]
+                    while a[0] == "op" and a[1].startswith("cast"):
+                        a = a[2][0]
+                    root, projs = util.field_path(a)
+                    if root == ("s", "_1") and len(projs) >= 2 and projs[0] == "*" and projs[1] == ".0":
+                        saved += 1
+                        is_cc = (a == cur_cc) if cur_cc is not None else (projs[-1] == ".%d" % cc_idx)
+                        if not is_cc:
+                            saved_bad.append("".join(projs))
             first = None
             for i, e in enumerate(p.events):
                 if e[0] == "call" and re.search(r"find_living_dynamic(_else)?$", e[1]):
@@ -191,7 +208,8 @@ def generation_restored_first(mir, cc_idx):
                     ok = True
             bad += (not ok)
         if n_read:
-            out.append({"arm": name, "entry": entry, "paths_reading_stamps": n_read, "unguarded": bad})
+            out.append({"arm": name, "entry": entry, "paths_reading_stamps": n_read, "unguarded": bad,
+                        "saved": saved, "saved_not_cc": sorted(set(saved_bad))})
     return out
 
 
@@ -274,6 +292,18 @@ def run(thorough=False):
                              g["unguarded"], g["paths_reading_stamps"])})
         res["samples"].append({"query": "dispatch_loop %s arm: generation established before the first "
                                "stamp read on all %d paths" % (g["arm"], g["paths_reading_stamps"]),
+                               "answer": "holds" if good else "fails"})
+    for g in gen:
+        if not g.get("saved"):
+            continue
+        res["evaluations"] += 1
+        good = not g["saved_not_cc"]
+        res["distinct_nontrivial"] += good
+        if not good:
+            viol.append({"region": "dispatch_loop " + g["arm"], "problem": "the generation saved for the "
+                         "retry is read from MachineState field %s, not cc" % g["saved_not_cc"]})
+        res["samples"].append({"query": "dispatch_loop %s arm: the generation saved in the choice point "
+                               "is cc (%d saves on the arm's paths)" % (g["arm"], g["saved"]),
                                "answer": "holds" if good else "fails"})
     if len(gen) < 3:
         res["exit"] = EXIT_INCONCLUSIVE
